@@ -73,10 +73,14 @@ class C15(Check):
                  "deliberate raise and %-format of None is an error) of the Ethernet/VLAN/LLC-SNAP/ARP/IPv4/ICMP/TCP(+options)/UDP/LLDP parse, pack "
                  "and print paths and the MPLS/EAPOL/EAP/IPv6(+extension headers)/ICMPv6(+NDP)/IGMP/GRE/VXLAN/RIP/DNS/DHCP parse paths + differential correspondence of the compiled model against the real classes on exhaustive truncation / "
                  "single-byte corruption / structure-aware / random frames + independent 'nothing raises, progress recorded' oracle on all 21 parsers")
-    rule = ("case = one byte string offered to ethernet(raw=...): a valid frame of the 96-frame corpus (all 21 modules), every truncation of it, "
-            "all 256 values at its header-boundary offsets and the 8 single-bit flips elsewhere, structure-aware mutants (length fields, option/TLV "
-            "lengths, header-length nibbles, DNS pointers, nesting) or random bytes; distinct = sha1 of the frame; non-trivial = ethernet header parsed "
-            "and at least one further parser entered")
+    rule = ("case = one byte string offered to ethernet(raw=...): a valid frame of the 105-frame corpus (all 21 modules; incl. realistic TCP SYN / SYN-ACK "
+            "option layouts and IGMP v1/v2/v3 queries and reports), every truncation of it (ICMPv6 / IGMP: also with the checksum recomputed), the payload-less "
+            "TCP segments whose last option (every kind incl. MPTCP with every subtype, every length) starts in the last 1..4 header bytes, ALL 256 values at "
+            "every protocol-selector / type / code / length / option-kind / option-length byte of every corpus frame and at every header byte of the "
+            "checksum-verified IGMP / ICMPv6 messages with the IPv4-header / IGMP / ICMPv6 checksum recomputed (both tiers, not sliced), all 256 values at "
+            "the other header-boundary offsets and the 8 single-bit flips elsewhere (every 16th in the quick tier, all in the thorough tier; mutants behind a "
+            "verified checksum also with the checksum recomputed), structure-aware mutants (length fields, option/TLV lengths, header-length nibbles, DNS "
+            "pointers, nesting) or random bytes; distinct = sha1 of the frame; non-trivial = ethernet header parsed and at least one further parser entered")
 
     # ------------------------------------------------------------------ setup
     def setup(self):
@@ -715,8 +719,8 @@ class C15(Check):
 
 C15.theorems = ["Pox.C15." + t for t in (
     "parse_total_partial", "parse_total_of_no_known", "nesting_defect", "progress_recorded", "repack_total_partial", "print_total_partial",
-    "refines_c14", "lldp_d14_defect", "lldp_tlv_malformed_defect", "llc_print_defect", "lldp_print_defect", "tcp_repack_defect",
-    "known_k5v", "known_k5i", "known_k6", "known_k7", "known_k8", "known_k9", "known_k10", "known_k13", "known_k14")]
+    "parse_total_with", "parse_total_fixed", "refines_c14", "lldp_d14_defect", "lldp_tlv_malformed_defect", "llc_print_defect", "lldp_print_defect", "tcp_repack_defect",
+    "known_k5v", "known_k5i", "known_k6", "known_k7", "known_k8", "known_k9", "known_k10", "known_k13", "known_k14", "known_witnesses_repaired")]
 C15.level_text = (
     "Proved in Lean for EVERY byte string offered to ethernet(raw=...) (= PacketIn.parsed), for a model in which every struct.unpack of a wrong-size slice, "
     "index past the end, ord() of an empty slice, deliberate raise, assert and %-format of None is an error: given len/4+1 nested constructor activations the "
@@ -724,14 +728,17 @@ C15.level_text = (
     "parse_total_of_no_known) - on every path through the parser classes of all 21 modules: Ethernet -> 802.1Q (nested) / LLC-SNAP -> ARP / IPv4(+options) -> ICMP echo/unreachable/"
     "time-exceeded (quoted datagram, nested) / TCP (+option parser) / UDP, LLDP with all TLV classes, and (phase 2) MPLS, EAPOL/EAP, IPv6 + extension-header "
     "chain, ICMPv6 (checksum, echo, unreachable, time-exceeded, packet-too-big) + NDP RS/RA/NS/NA with the option walker, IGMP v1-v3, GRE (+source routing), "
-    "VXLAN, RIP, DNS (as the code stands), DHCP (fixed part + option walker). Each finding K5..K14 has a decided witness (known_k*). The result covers the whole input and tiles it "
+    "VXLAN, RIP, DNS (as the code stands), DHCP (fixed part + option walker). Each finding K5..K14 has a decided witness (known_k*). The model is parametrised by "
+    "the set of proposed repairs fixes/C15-K<n>_*.diff the tree has (read off the source on every run): with any subset applied the only possible raises are the findings "
+    "NOT repaired (parse_total_with), each witness parses once its repair is in (known_witnesses_repaired), and with all of them ethernet(raw=...) returns for EVERY byte "
+    "string (parse_total_fixed). The result covers the whole input and tiles it "
     "(progress_recorded); pack() of any result made of phase-1 classes is defined (repack_total_partial), str()/dump() is defined (print_total_partial); "
     "the phase-1 model returns what the total C14 parser returns (refines_c14). Also proved: for every nesting budget d a frame of 14+4d bytes raises "
     "RecursionError (nesting_defect, K1), and five defects of the tree before the repairs with their repaired counterparts. Every run re-checks BOTH models "
-    "(phase-2 parsers modelled / left foreign) against the real classes on every truncation and single-byte corruption of 96 valid frames covering all 21 "
+    "(phase-2 parsers modelled / left foreign) against the real classes on every truncation and single-byte corruption of 105 valid frames covering all 21 "
     "modules and evaluates the 'nothing raises, progress recorded' oracle.")
 C15.level_note = (
-    "The theorems are about the hand-written model Model/PacketParse.lean of the code at HEAD, i.e. after the repairs D14, C15-1..C15-7 (Cfg.head = the tree before "
+    "The theorems are about the hand-written model Model/PacketParse.lean of the code at HEAD, i.e. after the repairs D14, C15-1..C15-8 (Cfg.head = the tree before "
     "them, used only by the _defect witnesses); they are tied to the code only by the differential run. PARTIAL: a TCP segment carrying the MPTCP option ends the model's "
     "chain as `foreign` (nothing proved; oracle only); the DHCP option *classes* are not modelled (unpackOptions wraps each in try/except and falls back to the raw "
     "bytes; the model keeps code + bytes); pack()/str() of the phase-2 classes are not modelled (their known failures are findings K2-K4, K11, K12, K15, K16; "
